@@ -804,6 +804,34 @@ def inject_error(rng, spec, kind):
 
 # ---- directed family: one pipeline mounted under two namespaces and consumed from both (train/valid pattern) ---------------
 
+def namesake_spec(rng, feat=None):
+    """-> (spec, roots): tasks called like the GROUP of their inputs (`dataset` <- `dataset:train`, `dataset:test`) and like the NAMESPACE of their
+    input (`stats` <- `stats::count`); inputs are run arguments, so they are computed while the dependant's own run has already been announced"""
+    feat = {**DEFAULT_FEAT, **(feat or {})}
+    pkg = 'labn_' + ''.join(rng.choice('abcdefghijklmnop') for _ in range(8))
+    kinds = [k for k in feat['data_kinds'] if k not in ('dir_link', 'figure')]
+    tr = {'cls': 'Train', 'group': 'dataset', 'data_kind': rng.choice(kinds), 'params': [{'name': 'p', 'access': rng.choice(['args', None])}], 'inputs': []}
+    te = {'cls': 'Test', 'group': 'dataset', 'data_kind': rng.choice(kinds), 'params': [], 'inputs': []}
+    acc = rng.choice(['args', 'index'])
+    ds = {'cls': 'Dataset', 'data_kind': rng.choice(kinds), 'params': [], 'inputs': [
+        dict({'form': 'class', 'ref_class': 'Train', 'ref_class_path': f'{pkg}.pipe.Train'}, **({'access': 'args', 'arg': 'train'} if acc == 'args' else {'access': 'index', 'index': 0})),
+        dict({'form': 'class', 'ref_class': 'Test', 'ref_class_path': f'{pkg}.pipe.Test'}, **({'access': 'args', 'arg': 'test'} if acc == 'args' else {'access': 'index', 'index': 1}))]}
+    cnt = {'cls': 'Count', 'data_kind': rng.choice(kinds), 'params': [{'name': 'q', 'default': 1}], 'inputs': []}
+    st = {'cls': 'Stats', 'data_kind': rng.choice(kinds), 'params': [], 'inputs': [
+        {'form': 'ns_name', 'ref': 'stats::count', 'access': 'index', 'index': 0},
+        {'form': 'class', 'ref_class': 'Dataset', 'ref_class_path': f'{pkg}.pipe.Dataset', 'access': 'index', 'index': 1}]}
+    v0 = rng.choice([1, 'a', [1, 2]])
+    spec = {'pkg': pkg, 'modules': [{'name': 'pipe', 'package': None, 'tasks': [tr, te, ds, st]}, {'name': 'sub', 'package': None, 'tasks': [cnt]}],
+            'files': {'cfg/sub.json': {'parts': {'': {'tasks': [f'{pkg}.sub.*'], 'values': {'q': 2}, 'uses': []}}},
+                      'cfg/top.yaml': {'parts': {'': {'tasks': [f'{pkg}.pipe.*'], 'values': {'p': v0}, 'uses': [{'file': 'cfg/sub.json', 'as': 'stats'}]}}}},
+            'context_files': {}, 'placeholders': None, 'fnames': ['cfg/top.yaml', 'cfg/sub.json'], 'free_ns_words': ['m', 'ab'], 'extra_mounts': []}
+    roots = [{'file': 'cfg/top.yaml'},
+             {'file': 'cfg/top.yaml', 'context': [{'kind': 'dict', 'data': {'p': same_type_value(rng, v0)}}], 'context_single': True},
+             {'file': 'cfg/top.yaml', 'context': [{'kind': 'dict', 'data': {'for_namespaces': {'stats': {'q': 5}}}}], 'context_single': True}]
+    rng.shuffle(roots)
+    return spec, roots[:rng.randint(1, 3)]
+
+
 def repeated_ns_spec(rng):
     """-> (spec, root): a namespace word REPEATED along a mount path (W::W::leaf next to W::leaf) and contexts addressing `W::leaf` either
     from the root (absolute) or from a context mounted `as W` (relative: W::W::leaf). No task names an input, so the only question is which
